@@ -86,6 +86,7 @@ impl Prop for C03 {
                     max_arr: around(rng, e.max_arr),
                     max_depth: if rng.chance(1, 10) { rng.below(4) } else { 64 },
                     max_msg: 0,
+                    named: 0,
                 };
                 out.push(format!("lim {} {} {}", v.type_name(), lim.show(), v.tree()));
             }
@@ -104,8 +105,7 @@ impl Prop for C03 {
                         max_bytes: around(rng, e.max_bytes),
                         max_arr: around(rng, e.max_arr),
                         max_depth: 64,
-                        max_msg: 0,
-                    };
+                        max_msg: 0, named: 0 };
                     let limit = *rng.pick(&[lim.max_str, lim.max_bytes, lim.max_arr]) as i64;
                     let new: i32 = match rng.below(9) {
                         0 => (limit - 1) as i32,
@@ -138,16 +138,34 @@ impl Prop for C03 {
                 let bytes = {
                     let mut g = Gen::new(rng);
                     g.lens = vec![0, 1, 2, 3, 4];
-                    g.struct_bytes(name, false).0
+                    g.struct_bytes(name, case % 4 == 2).0
                 };
+                if case % 8 == 5 {
+                    // every truncation: the length fields of arrays / enums / flags cut short
+                    for p in all_prefixes(&bytes, 32) {
+                        out.push(format!("sdec {} {} x{}", name, Lim::default().show(), hex(&p)));
+                    }
+                }
+                {
+                    // the Variant mask sweep (256 masks x 8 shapes = 2048 points, one per case, so a quick
+                    // run enumerates all of it), under the default limits and under an array limit 0 / 1 / 2
+                    let b = Gen::new(rng).variant_mask_sweep(case % 2048);
+                    out.push(format!("dec Variant {} x{}", Lim::default().show(), hex(&b)));
+                    let lim = Lim { max_arr: *rng.pick(&[0usize, 1, 2]), ..Lim::default() };
+                    out.push(format!("dec Variant {} x{}", lim.show(), hex(&b)));
+                    if case % 8 == 1 {
+                        for p in all_prefixes(&b, 24) {
+                            out.push(format!("dec Variant {} x{}", Lim::default().show(), hex(&p)));
+                        }
+                    }
+                }
                 if bytes.len() <= 3000 {
                     let lim = Lim {
                         max_str: *rng.pick(&[0usize, 1, 2, 3, 4, 5, 300]),
                         max_bytes: *rng.pick(&[0usize, 1, 2, 3, 4, 5, 300]),
                         max_arr: *rng.pick(&[0usize, 1, 2, 3, 4, 300]),
                         max_depth: 64,
-                        max_msg: 0,
-                    };
+                        max_msg: 0, named: 0 };
                     out.push(format!("sdec {} {} x{}", name, lim.show(), hex(&bytes)));
                 }
             }
@@ -268,7 +286,7 @@ impl Runner for R {
                 // accepted under generous ones too and re-encodes to the same bytes
                 let verdict = match out {
                     Some(Ok((pos, re, _, _))) => {
-                        let g = Lim { max_str: 1 << 20, max_bytes: 1 << 20, max_arr: 1 << 16, max_depth: 64, max_msg: 0 };
+                        let g = Lim { max_str: 1 << 20, max_bytes: 1 << 20, max_arr: 1 << 16, max_depth: 64, max_msg: 0, named: 0 };
                         match dispatch::decode_struct(name, &bytes, &g.options()) {
                             Some(Ok((p2, re2, _, _))) if p2 == pos && re2 == re => Verdict::Ok,
                             _ => Verdict::fail("limit_monotone", name, "accepted under small limits but differently under generous ones"),
